@@ -68,6 +68,8 @@ def add_with_id(ctx, rule):
     expect_defs(ctx, rule, b, nid, roles, {"Not(0)": "none", "SourceMapBuilder::add_name(arg1,some(arg8))": "interned"}, ["none", "interned"], "name id")
     pushes = [q.shape(b.expr_of_call(t), roles) for bi, t in q.calls_to(b, "Vec::<T, A>::push")]
     ctx.check(len(pushes) == 1 and pushes[0].startswith("Vec::push(arg1.tokens,RawToken{"), rule, fn, "push", "the token is appended to the builder's tokens")
+    pb = [bi for bi, t in q.calls_to(b, "Vec::<T, A>::push")]
+    ctx.check(len(pb) == 1 and all(b.dominates(pb[0], r) for r in b.return_blocks()), rule, fn, "push:unconditional", "every added token is appended (no token is filtered or merged by the builder)")
     rets = [q.shape(b.expr_of_rvalue(s["rv"]), roles) for bi, si, s, it in b.locations() if not it and s["k"] == "assign" and s["place"]["l"] == 0 and not s["place"]["p"]]
     ctx.check(len(rets) == 1 and rets[0].startswith("RawToken{"), rule, fn, "returns-token", "the token (with the interned ids) is returned")
     rb = ctx.body(B + "add_raw")
@@ -76,6 +78,8 @@ def add_with_id(ctx, rule):
               "add_raw stores the given positions and ids (absent ids as the tombstone !0)", detail=str(rl)[:300])
     rp = [q.shape(rb.expr_of_call(t)) for bi, t in q.calls_to(rb, "Vec::<T, A>::push")]
     ctx.check(len(rp) == 1 and rp[0].startswith("Vec::push(arg1.tokens,RawToken{"), rule, rb.path, "add_raw:push", "... and appends the token")
+    rpb = [bi for bi, t in q.calls_to(rb, "Vec::<T, A>::push")]
+    ctx.check(len(rpb) == 1 and all(rb.dominates(rpb[0], r) for r in rb.return_blocks()), rule, rb.path, "add_raw:unconditional", "... unconditionally")
     ab = ctx.body(B + "add")
     calls = [q.shape(ab.expr_of_call(t)) for bi, t in ab.calls()]
     ctx.check(calls == ["SourceMapBuilder::add_with_id(arg1,arg2,arg3,arg4,arg5,arg6,Not(0),arg7,arg8)"], rule, ab.path, "add", "add forwards its arguments positionally with no old id", detail=str(calls))
@@ -157,6 +161,21 @@ def contents_predicates(ctx, rule):
     calls = [q.shape(sg.expr_of_call(t)) for bi, t in sg.calls()]
     ok = any(c == "Option::and_then(slice::get(arg1.sources_content,cast<usize>(arg2)),fn:Option::as_ref)" for c in calls)
     ctx.check(ok, rule, sg.path, "map:get_source_contents", "SourceMap::get_source_contents(id) likewise flattens a missing slot and an empty slot to None", detail=str(calls)[:300])
+
+
+def builder_calls(ctx, rule):
+    """Which builder methods rewrite / flatten may call: the maps they build must contain exactly
+    what was re-inserted (no extra root, file, names or tokens injected on the side)."""
+    allowed = {
+        RWM: {"new", "set_debug_id", "add_token", "has_source_contents", "set_source_contents", "load_local_source_contents", "strip_prefixes", "take_mapping", "into_sourcemap"},
+        FLAT: {"new", "add", "has_source_contents", "set_source_contents", "add_to_ignore_list", "into_sourcemap"},
+    }
+    for path, ok in allowed.items():
+        b = ctx.body(path)
+        got = sorted(set(q.nice(t.get("callee")).split("::")[-1] for bi, t in b.calls() if (t.get("callee") or "").startswith(B)))
+        extra = [g for g in got if g not in ok]
+        ctx.check(not extra, rule, path, "builder-calls", "only the re-insertion methods of the builder are used (a root set here would be applied on top of already joined names)", detail=str(extra))
+        ctx.check("into_sourcemap" in got and ("add_token" in got or "add" in got), rule, path, "builder-calls:floor", "the builder is fed and finished")
 
 
 def strip_prefixes(ctx, rule):
